@@ -120,3 +120,34 @@ CONTRACTS[GPC + "_ground_equality_objects"] = dict(
     must_raise=["exists_int(lambda i: seq(equality_preconditions)[i][0] not in parameters_map or "
                 "seq(equality_preconditions)[i][1] not in parameters_map, 0, len(seq(equality_preconditions)))"],
     modifies=[])
+
+# ---- deductive: a numeric conjunct / disjunct is evaluated on the fluent values of the state ------------------------------------------
+# Uses the contracts discharged under C12: set_expression_value (every fluent leaf of the tree receives the state's value, 0 if the
+# state does not define it; nothing else is written) and evaluate_expression (== cmp_spec: the comparison of the two sides' values with
+# the stated tolerance), and the and/or fold above.
+from contracts.c12 import CONTRACTS as _C12_CONTRACTS, _HOOKS as _C12_HOOKS, _SEV_HOOKS as _C12_SEV_HOOKS, NE as _NE12, EPS_GLOBAL as _EPS
+_C02N_HOOKS = dict(_C12_HOOKS, **_C12_SEV_HOOKS)
+for _k in (_NE12 + "set_expression_value", _NE12 + "evaluate_expression@cmp"):
+    CONTRACTS[_k] = dict(_C12_CONTRACTS[_k], prop="C12")
+_ROOT = "condition.root"
+CONTRACTS[GPC + "_validate_numeric_expression_hold"] = dict(
+    prop="C02",
+    params={"self": ("ref", "GroundedPrecondition"), "condition": ("ref", "NumericalExpressionTree"), "prev_is_applicable": "bool",
+            "preconditions": ("ref", "Precondition"), "state": ("ref", "State")},
+    returns="bool", globals=_EPS, allocates=False,
+    requires=["allocated(self)", "allocated(condition)", "allocated(preconditions)", "allocated(state)", "allocated(state.state_fluents)",
+              # a numeric condition is a comparison over well-formed arithmetic; the state's fluent objects are not the tree's own leaves
+              f"is_cmp_node({_ROOT})", f"tree_refs_ok({_ROOT})", f"separate({_ROOT}, state.state_fluents)",
+              # the node's connective is one of the two the object model produces
+              "preconditions.binary_operator == 'and' or preconditions.binary_operator == 'or'"],
+    ensures=[
+        # the tree's fluent leaves now hold the state's values (0 for a fluent the state does not define); nothing else was written
+        f"leaves_set({_ROOT}, state.state_fluents)", f"others_kept({_ROOT})",
+        # the answer is the comparison under those values, folded into the running result by the node's connective
+        f"implies(preconditions.binary_operator == 'and', result == (prev_is_applicable and cmp_spec({_ROOT})))",
+        f"implies(preconditions.binary_operator == 'or', result == (prev_is_applicable or cmp_spec({_ROOT})))"],
+    raises={"ZeroDivisionError": "True"},
+    modifies=["PDDLFunction.stored_value"],
+    calls={"set_expression_value": _NE12 + "set_expression_value", "evaluate_expression": _NE12 + "evaluate_expression@cmp",
+           "BinaryOperator[and]": "models.grounded_precondition:BinaryOperator[and]", "BinaryOperator[or]": "models.grounded_precondition:BinaryOperator[or]"},
+    spec_hooks=_C02N_HOOKS)
